@@ -625,21 +625,22 @@ theorem mapE_mono {α β : Type} {f g : α → Except String β} (h : ∀ a b, f
         rw [h a b hb, mapE_mono h l bs hbs]
         exact hr
 
-theorem pinCoord_agrees (p : PreResolved) (pin : PinRow) (v : Rat × Rat)
-    (h : pinCoord rotCode p pin = .ok v) : pinCoord rotExact p pin = .ok v := by
+/-- monotonicity of the resolver in the rotation function -/
+theorem pinCoord_mono {rot1 rot2 : Rat → Rat × Rat → Option (Rat × Rat)}
+    (hrot : ∀ a v w, rot1 a v = some w → rot2 a v = some w) (p : PreResolved) (pin : PinRow) (v : Rat × Rat)
+    (h : pinCoord rot1 p pin = .ok v) : pinCoord rot2 p pin = .ok v := by
   unfold pinCoord at h ⊢
   split at h
   · cases h
   · rename_i s hs
     split at h
     · rename_i w hw
-      rw [rotCode_rotExact _ _ _ hw]; exact h
+      rw [hrot _ _ _ hw]; exact h
     · cases h
 
-/-- **lifted through the resolver**: whenever the model of the code resolves an element (its angle hits `Cpt.R`'s table),
-    resolving it with the rotation the hint *means* gives the same element -/
-theorem resolveWith_agrees (k : Rat) (all : List String) (e : Elt) (r : Resolved)
-    (h : resolveWith rotCode k all e = .ok r) : resolveWith rotExact k all e = .ok r := by
+theorem resolveWith_mono {rot1 rot2 : Rat → Rat × Rat → Option (Rat × Rat)}
+    (hrot : ∀ a v w, rot1 a v = some w → rot2 a v = some w) (k : Rat) (all : List String) (e : Elt) (r : Resolved)
+    (h : resolveWith rot1 k all e = .ok r) : resolveWith rot2 k all e = .ok r := by
   unfold resolveWith at h ⊢
   split at h
   · cases h
@@ -651,19 +652,56 @@ theorem resolveWith_agrees (k : Rat) (all : List String) (e : Elt) (r : Resolved
       split at h
       · cases h
       · rename_i tc htc
-        rw [mapE_mono (pinCoord_agrees p) _ _ htc]; exact h
+        rw [mapE_mono (pinCoord_mono hrot p) _ _ htc]; exact h
 
-theorem resolveAll_agrees (n : Netlist) (x : List String × List Resolved)
-    (h : resolveAll rotCode n = .ok x) : resolveAll rotExact n = .ok x := by
+theorem resolveAll_mono {rot1 rot2 : Rat → Rat × Rat → Option (Rat × Rat)}
+    (hrot : ∀ a v w, rot1 a v = some w → rot2 a v = some w) (n : Netlist) (x : List String × List Resolved)
+    (h : resolveAll rot1 n = .ok x) : resolveAll rot2 n = .ok x := by
   unfold resolveAll at h ⊢
   split at h
   · cases h
-  · rename_i elts he
+  · rename_i elts0 he
     split at h
     · cases h
-    · rename_i rs hrs
-      rw [mapE_mono (fun e r => resolveWith_agrees n.spacing (schNodes elts) e r) _ _ hrs]; exact h
+    · rename_i elts newNodes hsp
+      simp only at h ⊢
+      split at h
+      · cases h
+      · rename_i rs hrs
+        rw [mapE_mono (fun e r => resolveWith_mono hrot n.spacing (schNodes elts0 ++ newNodes) e r) _ _ hrs]; exact h
 
+theorem pinCoord_agrees (p : PreResolved) (pin : PinRow) (v : Rat × Rat)
+    (h : pinCoord rotCode p pin = .ok v) : pinCoord rotExact p pin = .ok v :=
+  pinCoord_mono rotCode_rotExact p pin v h
+
+/-- **lifted through the resolver**: whenever the model of the code resolves an element (its angle hits `Cpt.R`'s table),
+    resolving it with the rotation the hint *means* gives the same element -/
+theorem resolveWith_agrees (k : Rat) (all : List String) (e : Elt) (r : Resolved)
+    (h : resolveWith rotCode k all e = .ok r) : resolveWith rotExact k all e = .ok r :=
+  resolveWith_mono rotCode_rotExact k all e r h
+
+theorem resolveAll_agrees (n : Netlist) (x : List String × List Resolved)
+    (h : resolveAll rotCode n = .ok x) : resolveAll rotExact n = .ok x :=
+  resolveAll_mono rotCode_rotExact n x h
+
+/-- with cos/sin parameters: the rotation of the code agrees with the meaning wherever the former is defined -/
+theorem rotCodeP_rotMeanP (rots : RotTable) (a : Rat) (v w : Rat × Rat) (h : rotCodeP rots a v = some w) :
+    rotMeanP rots a v = some w := by
+  unfold rotCodeP at h
+  unfold rotMeanP
+  cases hc : rotCode a v with
+  | some w' =>
+    simp only [hc, Option.some.injEq] at h
+    subst h
+    rw [rotCode_rotExact a v w' hc]
+  | none =>
+    simp only [hc] at h
+    split at h
+    · cases h
+    · rename_i hq
+      have hq' : quarter a = none := by simpa using hq
+      have : rotExact a v = none := by unfold rotExact; rw [hq']
+      rw [this]; exact h
 
 theorem one_port_item_exact (k : Rat) (r : Resolved) (a b : String) (ta tb : Rat × Rat) (hskip : r.skip = false)
     (hp : r.pins = [(a, ta), (b, tb)])
